@@ -1,20 +1,22 @@
+import Ktm.Sc
 /-! C18 prototype: per-step observations, executions averaged, best value ignoring NaN. -/
 namespace Metrics
 
-inductive FV | nan | fin (q : Rat)
+inductive FV | nan | val (s : Sc)
   deriving DecidableEq, Repr
 
+/-- IEEE addition as numpy's `mean` performs it: NaN absorbs, `inf + (-inf)` is NaN -/
 def FV.add : FV → FV → FV
-  | .fin a, .fin b => .fin (a + b)
+  | .val a, .val b => match Sc.add a b with | some c => .val c | none => .nan
   | _, _ => .nan
 
 def sum : List FV → FV
-  | [] => .fin 0
+  | [] => .val (.fin 0)
   | x :: xs => FV.add x (sum xs)
 
 def mean (l : List FV) : FV :=
   match sum l with
-  | .fin s => .fin (s / (l.length : Rat))
+  | .val s => .val (s.divNat l.length)
   | .nan => .nan
 
 structure Obs where
@@ -27,13 +29,13 @@ def update : List Obs → Int → FV → List Obs
   | o :: os, s, v => if o.step = s then ⟨s, o.vals ++ [v]⟩ :: os else o :: update os s v
 
 /-- better-or-equal in the metric's direction -/
-def leDir (minimize : Bool) (a b : Rat) : Bool := if minimize then decide (a ≤ b) else decide (b ≤ a)
+def leDir (minimize : Bool) (a b : Sc) : Bool := if minimize then Sc.le a b else Sc.le b a
 
 /-- `np.nanmin` / `np.nanmax` over the per-step means: NaN entries are ignored -/
-def nanBest (minimize : Bool) : List FV → Option Rat
+def nanBest (minimize : Bool) : List FV → Option Sc
   | [] => none
   | .nan :: xs => nanBest minimize xs
-  | .fin a :: xs =>
+  | .val a :: xs =>
     match nanBest minimize xs with
     | none => some a
     | some b => if leDir minimize a b then some a else some b
@@ -42,30 +44,34 @@ def nanBest (minimize : Bool) : List FV → Option Rat
 def bestValue (minimize : Bool) (h : List Obs) : Option FV :=
   if h = [] then none else
   match nanBest minimize (h.map (fun o => mean o.vals)) with
-  | some b => some (.fin b)
+  | some b => some (.val b)
   | none => some .nan
 
 /-- `get_best_step`: first observation (insertion order) whose mean equals the best value -/
 def bestStep (minimize : Bool) (h : List Obs) : Option Int :=
   match nanBest minimize (h.map (fun o => mean o.vals)) with
-  | some b => (h.find? (fun o => mean o.vals == .fin b)).map (·.step)
+  | some b => (h.find? (fun o => mean o.vals == .val b)).map (·.step)
   | none => none
 
-theorem leDir_total (m : Bool) (a b : Rat) : leDir m a b = true ∨ leDir m b a = true := by
-  unfold leDir; cases m <;> simp <;> exact Rat.le_total
+theorem leDir_total (m : Bool) (a b : Sc) : leDir m a b = true ∨ leDir m b a = true := by
+  unfold leDir; cases m <;> simp
+  · exact Sc.le_total' b a
+  · exact Sc.le_total' a b
 
-theorem leDir_trans (m : Bool) (a b c : Rat) (h1 : leDir m a b = true) (h2 : leDir m b c = true) :
+theorem leDir_trans (m : Bool) (a b c : Sc) (h1 : leDir m a b = true) (h2 : leDir m b c = true) :
     leDir m a c = true := by
-  unfold leDir at *; cases m <;> simp_all <;> exact Rat.le_trans (by assumption) (by assumption)
+  unfold leDir at *; cases m <;> simp_all
+  · exact Sc.le_trans _ _ _ h2 h1
+  · exact Sc.le_trans _ _ _ h1 h2
 
-theorem leDir_refl (m : Bool) (a : Rat) : leDir m a a = true := by
-  unfold leDir; cases m <;> simp <;> exact Rat.le_refl
+theorem leDir_refl (m : Bool) (a : Sc) : leDir m a a = true := by
+  unfold leDir; cases m <;> simp [Sc.le_refl]
 
 /-- the best value is attained and is at least as good as every non-NaN mean -/
 theorem nanBest_spec (m : Bool) (l : List FV) :
     match nanBest m l with
-    | some b => FV.fin b ∈ l ∧ ∀ a, FV.fin a ∈ l → leDir m b a = true
-    | none => ∀ a, FV.fin a ∉ l := by
+    | some b => FV.val b ∈ l ∧ ∀ a, FV.val a ∈ l → leDir m b a = true
+    | none => ∀ a, FV.val a ∉ l := by
   induction l with
   | nil => simp [nanBest]
   | cons x xs ih =>
@@ -77,7 +83,7 @@ theorem nanBest_spec (m : Bool) (l : List FV) :
       | some b =>
         simp only [hb] at ih
         exact ⟨List.mem_cons_of_mem _ ih.1, fun a ha => by simp at ha; exact ih.2 a ha⟩
-    | fin a =>
+    | val a =>
       simp only [nanBest]
       cases hb : nanBest m xs with
       | none =>
@@ -121,7 +127,7 @@ theorem bestStep_attains (m : Bool) (h : List Obs) (s : Int) (hs : bestStep m h 
     have hne : h ≠ [] := by intro hn; subst hn; simp at hmem
     refine ⟨o, hmem, hst, ?_⟩
     simp only [bestValue, hne, if_false, hb]
-    have : mean o.vals = .fin b := by simpa using hp
+    have : mean o.vals = .val b := by simpa using hp
     rw [this]
 
 end Metrics
